@@ -81,6 +81,8 @@ class C13(Prop):
                 # without inverses only when the next step recomputes them anyway (documented requirement)
                 load_ci = True if t % ius != 0 else bool(case.get('load_compute_inverses', True))
                 program.append({'op': 'load', 'compute_inverses': load_ci})
+                # queried right after the load, before any step has waited for the broadcasts the load started
+                program.append({'op': 'memory_usage', 'ranks': None})
             program.append({'op': 'train', 'seed': t})
             program.append({'op': 'memory_usage', 'ranks': None})
         labels = {'W': W, 'strategy': strat, 'method': case['method'], 'prediv': case['prediv'], 'symmetry': case['symmetry'],
@@ -115,7 +117,19 @@ class C13(Prop):
         for r in range(W):
             recs = res.results[r]
             trains = [x for x in recs if x['op'] == 'train']
-            mems = [x for x in recs if x['op'] == 'memory_usage']
+            load_i = next((x['i'] for x in recs if x['op'] == 'load'), None)
+            mems = [x for x in recs if x['op'] == 'memory_usage' and (load_i is None or x['i'] != load_i + 1)]
+            for mu in [x for x in recs if x['op'] == 'memory_usage' and load_i is not None and x['i'] == load_i + 1]:
+                walk = Counter()
+                for nm in names:
+                    for key, v in mu['bytes'][nm].items():
+                        walk[key] += v
+                walk['total'] = sum(walk.values())
+                rep = {kk: int(v) for kk, v in mu['memory'].items()}
+                for key in set(walk) | set(rep):
+                    if rep.get(key, 0) != walk.get(key, 0):
+                        return violation(f'right after a checkpoint load: rank {r}: memory_usage()[{key!r}] = {rep.get(key, 0)} but the tensors held amount to '
+                                         f'{walk.get(key, 0)} bytes (reported {rep}, held {dict(walk)}; W={W}, k={k}, method={case["method"]})', 'memory-usage', labels=labels)
             for t, (tr, mu) in enumerate(zip(trains, mems)):
                 is_factor = t % fus == 0
                 is_refresh = t % ius == 0
